@@ -620,6 +620,12 @@ impl Scenario for C11 {
                 "clock-back" => {
                     sim.nodes[n].clock.set_offset(-(20_000 * (1 + mv.a as i64)));
                     sim.tick(n, P_CONSENSUS);
+                    // while the clock reads earlier than before, the peers keep talking: every per-peer limiter sees
+                    // a "now" that lies before the start of its current window
+                    sim.ext_send(aconn, Message::Ping().serialize());
+                    sim.ext_send(hc, Message::Ping().serialize());
+                    sim.tick(n, P_ROUTING);
+                    let _ = sim.settle_without_fetches(20_000);
                     sim.nodes[n].clock.set_offset(0);
                     r.fault("clock_jump_back", 1);
                 }
